@@ -64,9 +64,41 @@ def _lb_loop(m):
   return None
 
 
+def early_distance(ctx, ci, enc, dec):
+  """The encoder labels an early default event "repeat of the last lookback" while `position < D`; the decoder turns that label
+  back into the default event while `len(events) < D'`.  D and D' must be the same distance (the last one in the list):
+  with max(distances) on one side an unsorted list gives a label the decoder reads from real history.  Location-independent."""
+  pos = enc.params()[2]
+  dev = dec.params()[2]
+
+  def distances(fn, subject):
+    out = []
+    for c in ast.walk(fn):
+      if isinstance(c, ast.Compare) and len(c.ops) == 1 and isinstance(c.ops[0], (ast.Lt, ast.LtE)):
+        l, r = c.left, c.comparators[0]
+        for a, b in ((l, r), (r, l)):
+          if norm_text(a) == subject and any(isinstance(n, ast.Attribute) and n.attr == '_lookback_distances' for n in ast.walk(b)) and \
+              not any(isinstance(n, ast.Name) and n.id not in ('self', 'max', 'min', 'len') for n in ast.walk(b)):
+            out.append((c, b))
+    return out
+  e = distances(enc.node, pos)
+  if not e:
+    return      # the early-default idiom is written differently: the anchored rules decide
+  # the early label is the label of the *last* lookback (LOOKBACK/*/early-label), which the decoder maps to the default event
+  # while len(events) < distances[-1]
+  dtxt = {'self._lookback_distances[-1]', 'self._lookback_distances[len(self._lookback_distances) - 1]'}
+  for c, b in e:
+    ok = norm_text(b) in dtxt
+    ctx.ob('LOOKBACK/%s/early-distance' % ci.qualname, enc, c, ok, 'the early-default test uses the distance the decoder tests (%s)' % norm_text(b) if ok else
+           'the encoder labels early default events while position < %s, but the decoder maps that label back to the default event while len(events) < %s: '
+           'for lookback lists where these differ the label decodes to an event from real history' % (norm_text(b), ' / '.join(sorted(dtxt))),
+           construct='%s early-default distance: encoder == decoder' % ci.qualname, definite=True)
+
+
 def lookback(ctx, cq):
   ci = ctx.cls(cq)
   enc, dec, nc = ci.methods['events_to_label'], ci.methods['class_index_to_event'], ci.methods['num_classes']
+  early_distance(ctx, ci, enc, dec)
   ev, pos = enc.params()[1:3]
   cidx, dev = dec.params()[1:3]
   le, ld = _lb_loop(enc), _lb_loop(dec)
